@@ -103,6 +103,12 @@ Section ReloadHistory.
     - apply run_handles.
   Qed.
 
+  (* no database name of a reachable catalog contains a dot: the hypothesis
+     `handles_ok` of the file-level theorem is an invariant *)
+  Theorem handles_ok_history calls :
+    handles_ok (image (ds_cat (fst (run d_init calls)))) = true.
+  Proof. apply handles_ok_image. apply (run_handles matchf applyf extractf projectf now calls). Qed.
+
   (* ---------------------------------------------------------------- *)
   (* the reloaded database answers every later call identically *)
 
@@ -228,5 +234,6 @@ End ReloadHistory.
 
 Print Assumptions reload_state.
 Print Assumptions reload_history.
+Print Assumptions handles_ok_history.
 Print Assumptions reload_continuation.
 Print Assumptions reload_continuation_plain.
